@@ -800,8 +800,15 @@ def rule_ff_not_comb(repo):
     return r
 
 
+def rule_meta_cache(repo):
+    """the double-buffer mark is derived from the cached write set of the block: the cache must belong to the exact class and must
+    not go stale (shared with C02: R-C02-cache-scope, R-C02-index-scope)"""
+    from rules.c02 import rule_cache_scope, rule_index_scope
+    return [rule_cache_scope(repo), rule_index_scope(repo)]
+
+
 RULES = [rule_effects, rule_tick_order, rule_dbuf_set, rule_flip_cover, rule_init, rule_ffset, rule_ff_not_comb,
-         rule_next_in_range, rule_writes_detected]
+         rule_next_in_range, rule_writes_detected, rule_meta_cache]
 
 
 def _m(name, file, old, new, rule=None, count=1):
